@@ -63,7 +63,7 @@ template<char op, typename R> constexpr fixed_t ce_assign(fixed_t l, R r) noexce
 CONFIGS_QUICK = [("g++", "c++20", False), ("clang++-14", "c++20", False), ("g++", "c++17", True)]
 CONFIGS_THOROUGH = CONFIGS_QUICK + [("g++", "c++2b", False), ("clang++-14", "c++2b", False), ("clang++-14", "c++17", True), ("g++", "c++17", False), ("clang++-14", "c++17", False)]
 
-def run(lines, model_ab, parse_line, tier, limit):
+def run(lines, model_ab, parse_line, tier, limit, priority=()):
     """returns (stats, failures) ; failures: list of dict(input, config, error)"""
     items = []
     for line, mo in zip(lines, model_ab):
@@ -76,7 +76,11 @@ def run(lines, model_ab, parse_line, tier, limit):
     # spread the selection over all functions
     by_fn = {}
     for it in items: by_fn.setdefault(it[0].split()[0], []).append(it)
-    sel = []
+    # inputs on which some run-time leg disagreed with the model come first
+    prio = set(priority)
+    sel = [it for it in items if it[0] in prio][:max(50, limit // 4)]
+    chosen = set(it[0] for it in sel)
+    for k in by_fn: by_fn[k] = [it for it in by_fn[k] if it[0] not in chosen]
     while len(sel) < limit and by_fn:
         for k in list(by_fn):
             if by_fn[k]: sel.append(by_fn[k].pop(0))
